@@ -294,23 +294,23 @@ class PythonTranslator(ASTTranslator):
     def postName(translator, node):
         node.priority = 1
         return node.id
-    def postJoinedStr(self, node):
+    def fstring_body(self, node):
+        # the text between the quotes: literal braces are doubled, conversions and format specs are kept
         result = []
         for item in node.values:
             if isinstance(item, ast.Constant):
                 assert isinstance(item.value, str)
-                result.append(item.value)
-            elif not PY38 and isinstance(item, ast.Str):  # Python 3.7
-                result.append(item.s)
+                result.append(item.value.replace('{', '{{').replace('}', '}}'))
             elif isinstance(item, ast.FormattedValue):
-                if item.conversion == -1:
-                    src = '{%s}' % item.value.src
-                else:
-                    src = '{%s!%s}' % (item.value.src, chr(item.conversion))
-                result.append(src)
+                src = item.value.src
+                if item.conversion != -1: src += '!' + chr(item.conversion)
+                if item.format_spec is not None: src += ':' + self.fstring_body(item.format_spec)
+                result.append('{%s}' % src)
             else:
                 assert False
-        return "f%r" % ''.join(result)
+        return ''.join(result)
+    def postJoinedStr(self, node):
+        return "f%r" % self.fstring_body(node)
     def postFormattedValue(self, node):
         return node.value.src
 
